@@ -1,5 +1,6 @@
 import RsslVerif.Thm.C15
 import RsslVerif.Lemmas.GenSemLit
+import RsslVerif.Gen.UsageTables
 /-!
 # C01 ∘ C15: where the hypothesis `Agree` of `gen_sem_*` comes from
 
@@ -310,5 +311,35 @@ example :
     (build [] (inp [⟨.global, 0⟩])).toOption.map (·.map (·.name)) = some ["pick", "slot", "v", "slot_0"] ∧
     (build [] (inp [])).toOption.map (·.map (·.name)) = some ["pick", "slot", "v", "slot"] := by
   decide +kernel
+
+
+/-- **usage_analysis_descends_everywhere** (fact about the *current* source, re-extracted by C02's translator into
+`Gen.UsageTables` on every run): `gather_usage_for_statement / _expression / _init` and the `ForInit` match have exactly one
+arm per variant of the IR enums and pass **every** statement-, expression- and initialiser-valued field on (the `false`
+entries are the fields that hold no expression: constants, ids, types, swizzle letters, member names, the call's id and
+template arguments, a case label's constant); `Global` and `Call` record their symbol; function bodies, default arguments and
+global initialisers are gathered and every function has an entry.  This is the completeness premise of
+`unreserved_used_name_can_be_captured` for every syntactic position: seeded mutant C01-5 turns
+`("ArraySubscript", [true, true])` into `[true, false]`. -/
+theorem usage_analysis_descends_everywhere :
+    Gen.UsageTables.stmtArms = [
+      ("Expression", [true]), ("Var", [true]), ("Block", [true]), ("If", [true, true]), ("IfElse", [true, true, true]),
+      ("For", [true, true, true, true]), ("While", [true, true]), ("DoWhile", [true, true]), ("Switch", [true, true]),
+      ("Break", []), ("Continue", []), ("Discard", []), ("Return", [true]), ("CaseLabel", [false]), ("DefaultLabel", [])] ∧
+    Gen.UsageTables.exprArms = [
+      ("Literal", [false]), ("Variable", [false]), ("MemberVariable", [false, false]), ("Global", [false]),
+      ("ConstantVariable", [false]), ("EnumValue", [false]), ("TernaryConditional", [true, true, true]),
+      ("Sequence", [true]), ("Swizzle", [true, false]), ("MatrixSwizzle", [true, false]),
+      ("ArraySubscript", [true, true]), ("StructMember", [true, false, false]), ("ObjectMember", [true, false]),
+      ("Call", [true, false, true]), ("Constructor", [false, true]), ("Cast", [false, true]), ("SizeOf", [false]),
+      ("IntrinsicOp", [false, true])] ∧
+    Gen.UsageTables.initArms = [("Expression", [true]), ("Aggregate", [true])] ∧
+    Gen.UsageTables.forInitArms = [("Empty", []), ("Expression", [true]), ("Definitions", [true])] ∧
+    Gen.UsageTables.symbolInserts =
+      [("Global", "GlobalVariable"), ("ConstantVariable", "ConstantBuffer"), ("Call", "Function")] ∧
+    Gen.UsageTables.functionBodyGathered = true ∧ Gen.UsageTables.defaultArgumentsGathered = true ∧
+    Gen.UsageTables.globalInitialisersGathered = true ∧ Gen.UsageTables.everyFunctionHasAnEntry = true ∧
+    Gen.UsageTables.recurseShape = ⟨true, true, true, true, true⟩ := by
+  decide
 
 end RsslVerif.Thm.C01Names
